@@ -24,7 +24,7 @@ theorem updateSyndrome_eq (syn : Nat → Bool) (par : Nat → Nat) (l : List Nat
     updateSyndrome syn (l.map par) l s =
       if s ∈ l then false
       else (syn s != decide (l.countP (fun c => decide (par c = s) && syn c) % 2 = 1)) := by
-  unfold updateSyndrome
+  unfold updateSyndrome clearLeaves
   rw [zip_map_map, toggle_fold, List.countP_map]
   rfl
 
@@ -58,6 +58,7 @@ theorem peelRound_eq (G : GraphOK H) (hst : ∀ s, stabs s = true → s < H.leng
   rw [parents_eq hst T I hroot]
   rw [if_neg (by simp)]
   rw [add_eq G hst T I hroot]
+  simp only [tabGet_tabArr]
   rfl
 
 /-- two tree edges with the same edge qubit have the same child -/
@@ -239,7 +240,7 @@ theorem PInv_next (G : GraphOK H) (hst : ∀ s, stabs s = true → s < H.length)
     show cnt H.length (updateSyndrome st.syn (st.leaves.map (parOf H.length S0)) st.leaves) % 2 = 0
     have hlt : ∀ c, c ∈ st.leaves → c < H.length :=
       fun c hc => hst c (I.al_stabs c (leaf_alive I hc))
-    unfold updateSyndrome
+    unfold updateSyndrome clearLeaves
     show cnt H.length (fun i => if i ∈ st.leaves then false else
       (((st.leaves.map (parOf H.length S0)).zip (st.leaves.map st.syn)).foldl
         (fun (f : Nat → Bool) (pl : Nat × Bool) => fun i => if i = pl.1 then (f i != pl.2) else f i)
